@@ -30,42 +30,45 @@ class XMIResource(Resource):
     def load(self, options=None):
         self.options = options or {}
         self.cache_enabled = True
-        tree = parse(self.uri.create_instream())
-        xmlroot = tree.getroot()
-        self.prefixes.update(xmlroot.nsmap)
-        self.reverse_nsmap = {v: k for k, v in self.prefixes.items()}
+        try:
+            tree = parse(self.uri.create_instream())
+            xmlroot = tree.getroot()
+            self.prefixes.update(xmlroot.nsmap)
+            self.reverse_nsmap = {v: k for k, v in self.prefixes.items()}
 
-        self.xsitype = f'{{{self.prefixes.get(XSI)}}}type'
-        self.xmiid = f'{{{self.prefixes.get(XMI)}}}id'
-        self.schema_tag = f'{{{self.prefixes.get(XSI)}}}schemaLocation'
+            self.xsitype = f'{{{self.prefixes.get(XSI)}}}type'
+            self.xmiid = f'{{{self.prefixes.get(XMI)}}}id'
+            self.schema_tag = f'{{{self.prefixes.get(XSI)}}}schemaLocation'
 
-        # Decode the XMI
-        if f'{{{self.prefixes.get(XMI)}}}XMI' == xmlroot.tag:
-            real_roots = xmlroot
-        else:
-            real_roots = [xmlroot]
+            # Decode the XMI
+            if f'{{{self.prefixes.get(XMI)}}}XMI' == xmlroot.tag:
+                real_roots = xmlroot
+            else:
+                real_roots = [xmlroot]
 
-        def grouper(iterable):
-            args = [iter(iterable)] * 2
-            return zip(*args)
+            def grouper(iterable):
+                args = [iter(iterable)] * 2
+                return zip(*args)
 
-        self.schema_locations = {}
-        schema_tag_list = xmlroot.attrib.get(self.schema_tag, '')
-        for prefix, path in grouper(schema_tag_list.split()):
-            if '#' not in path:
-                path = path + '#'
-            self.schema_locations[prefix] = EProxy(path, self)
+            self.schema_locations = {}
+            schema_tag_list = xmlroot.attrib.get(self.schema_tag, '')
+            for prefix, path in grouper(schema_tag_list.split()):
+                if '#' not in path:
+                    path = path + '#'
+                self.schema_locations[prefix] = EProxy(path, self)
 
-        for root in real_roots:
-            modelroot = self._init_modelroot(root)
-            for child in root:
-                self._decode_eobject(child, modelroot)
+            for root in real_roots:
+                modelroot = self._init_modelroot(root)
+                for child in root:
+                    self._decode_eobject(child, modelroot)
 
-        if self.contents:
-            self._decode_ereferences()
-
-        self._clean_registers()
-        self.uri.close_stream()
+            if self.contents:
+                self._decode_ereferences()
+        finally:
+            # (also when the document is refused half-way: what was cached
+            # while reading it must not answer for the resource afterwards)
+            self._clean_registers()
+            self.uri.close_stream()
 
     def xsi_type_url(self):
         if self.options.get(XMIOptions.OPTION_USE_XMI_TYPE, False):
